@@ -175,6 +175,10 @@ func mapFormToStruct(val reflect.Value, form map[string][]string) error {
 
 		numElems := len(inputValue)
 		if structFieldKind == reflect.Array && numElems > 0 {
+			if numElems > structField.Len() {
+				return fmt.Errorf("form codec: %d values for field %q exceed the length of %s",
+					numElems, inputFieldName, structField.Type())
+			}
 			for i := 0; i < numElems; i++ {
 				arrayOf := structField.Type().Elem().Kind()
 				if err := setWithProperType(arrayOf, inputValue[i], structField.Index(i)); err != nil {
